@@ -56,37 +56,58 @@ class P:
         return ('block', out)
 
 FIELDS = {'_cache': 0, '_mcache': 1, '_scache': 2, '_verify_ro': 3, '_verify_generations': 4}
-CALLBACK_NEW = r'(PySequence_Tuple|PyObject_CallMethodObjArgs|PyObject_CallFunctionObjArgs|PyObject_GetAttr|providedBy|_lookup1?|implementedBy)'
+CALLBACK_NEW = r'(PySequence_Tuple|PyObject_CallMethodObjArgs|PyObject_CallFunctionObjArgs|PyObject_GetAttr|providedBy|_lookup1?|_getcache|implementedBy)'
 
 class Tr:
-    def __init__(s): s.vars = {}; s.unknown = []
+    """C lookup functions -> ownership IR (ZI.Own.Prog) with `ret`.  Call summaries used for the helpers that are translated and
+    checked themselves (`_subcache`, `_getcache`, `_lookup`): a call may run Python code and returns a NEW reference."""
+    def __init__(s): s.vars = {}; s.unknown = []; s.n = 0
     def v(s, name):
-        if name not in s.vars: s.vars[name] = len(s.vars)
+        if name not in s.vars:
+            s.vars[name] = s.n; s.n += 1
         return s.vars[name]
-    def simple(s, txt):
-        """-> list of IR ops (strings), or 'RET'"""
+    def simple(s, txt, cond=None):
+        """-> list of IR ops (strings), or ('RET', var or None)"""
         t = txt
         if re.match(r'^(PyObject|int|PyTypeObject)\s*\*?[\w\s,\*]*$', t) and '=' not in t: return []           # declaration
         if re.match(r'^\w+( = \w+)+ = NULL$', t): return []
         m = re.match(r'^return\b\s*(.*)$', t)
-        if m: return 'RET'
+        if m:
+            x = m.group(1).strip()
+            if x in s.vars: return ('RET', s.vars[x])
+            if re.match(r'^(NULL|-?\d+|)$', x): return ('RET', None)
+            s.unknown.append(t); return ('RET', None)
         if t.startswith('PyErr_SetString') or t.startswith('ASSURE_DICT'): return []
+        m = re.match(r'^(?:PyObject\s*\*\s*)?(\w+) = _subcache\((\w+), .*\)$', t)
+        if m and m.group(2) in s.vars:      # a sub-cache of a dictionary we hold: the key is hashed (Python code may run), a new reference comes back
+            return ['.use %d' % s.v(m.group(2)), '.callback', '.new %d' % s.v(m.group(1))]
+        m = re.match(r'^(?:PyObject\s*\*\s*)?(\w+) = _subcache\(self->(\w+), .*\)$', t)
+        if m:
+            tmp = s.v('__field_' + m.group(2))
+            return ['.borrowField %d %d' % (tmp, FIELDS[m.group(2)]), '.use %d' % tmp, '.callback', '.new %d' % s.v(m.group(1))]
         m = re.match(r'^(?:PyObject\s*\*\s*)?(\w+) = %s\s*\((.*)\)$' % CALLBACK_NEW, t)
         if m: return ['.callback', '.new %d' % s.v(m.group(1))]
-        m = re.match(r'^(\w+) = _getcache\(self, .*\)$', t)
-        if m: return ['.borrowField %d 0' % s.v(m.group(1))]
-        m = re.match(r'^(\w+) = _subcache\(self->(\w+), .*\)$', t)
-        if m: return ['.borrowField %d %d' % (s.v(m.group(1)), FIELDS[m.group(2)])]
+        m = re.match(r'^(\w+) = (PyDict_New|PyTuple_New)\(.*\)$', t)
+        if m: return ['.new %d' % s.v(m.group(1))]
+        m = re.match(r'^PyTuple_SET_ITEM\((\w+), \w+, (\w+)\)$', t)
+        if m: return ['.use %d' % s.v(m.group(1)), '.decref %d' % s.v(m.group(2))]      # steals our reference to the item
         m = re.match(r'^(\w+) = PyTuple_GET_ITEM\((\w+), \w+\)$', t)
         if m: return ['.borrowInside %d %d true' % (s.v(m.group(1)), s.v(m.group(2)))]
         m = re.match(r'^(\w+) = PyDict_GetItem\((\w+), (\w+)\)$', t)
-        if m: return ['.use %d' % s.v(m.group(2)), '.getItem %d %d' % (s.v(m.group(1)), s.v(m.group(2)))]
+        if m:   # the key is hashed and compared first: Python code (a __hash__ / __eq__ of the key) may run before the dictionary is searched
+            return ['.use %d' % s.v(m.group(2)), '.callback', '.getItem %d %d' % (s.v(m.group(1)), s.v(m.group(2)))]
         m = re.match(r'^\w+ = PyDict_SetItem\((\w+), (\w+), (\w+)\)$', t)
-        if m: return ['.use %d' % s.v(m.group(1))]
+        if m: return ['.use %d' % s.v(m.group(1)), '.callback', '.use %d' % s.v(m.group(1))]
         m = re.match(r'^Py_X?INCREF\((\w+)\)$', t)
-        if m: return [] if m.group(1) in ('Py_None', 'default_') else ['.incref %d' % s.v(m.group(1))]
+        if m: return [] if m.group(1) == 'Py_None' else ['.incref %d' % s.v(m.group(1))]
         m = re.match(r'^Py_X?DECREF\((\w+)\)$', t)
-        if m: return [] if m.group(1) == 'Py_None' else ['.decref %d' % s.v(m.group(1))]
+        if m:
+            if m.group(1) == 'Py_None':
+                # `if (result == Py_None ...) { Py_DECREF(Py_None); ...`: the reference released is the one held in `result`
+                mc = re.search(r'(\w+) == Py_None', cond or '')
+                if mc and mc.group(1) in s.vars: return ['.decref %d' % s.vars[mc.group(1)]]
+                s.unknown.append(t); return []
+            return ['.decref %d' % s.v(m.group(1))]
         m = re.match(r'^(\w+) = self->(\w+)$', t)
         if m and m.group(2) in FIELDS: return ['.borrowField %d %d' % (s.v(m.group(1)), FIELDS[m.group(2)])]
         m = re.match(r'^(\w+) = _generations_tuple\((\w+)\)$', t)
@@ -97,30 +118,59 @@ class Tr:
             tmp = s.v('__tmp_' + m.group(2))
             return ['.borrowField %d %d' % (tmp, FIELDS[m.group(2)]), '.use %d' % tmp, '.use %d' % s.v(m.group(3)), '.callback']
         m = re.match(r'^(\w+) = (\w+)$', t)
-        if m and m.group(1) == 'key': return ['ALIAS %s %s' % (m.group(1), m.group(2))]
+        if m and m.group(2) in s.vars and m.group(1) in ('key', 'result'): return ['ALIAS %s %s' % (m.group(1), m.group(2))]
         if re.match(r'^int \w+$', t): return []
         s.unknown.append(t); return []
-    def prog(s, stmts, cont):
-        """translate a list of statements followed by continuation `cont` (a Lean Prog string)"""
-        if not stmts: return cont
-        st, rest = stmts[0], stmts[1:]
-        if st[0] == 'block': return s.prog(st[1] + rest, cont)
-        if st[0] == 'simple':
-            r = s.simple(st[1])
-            if r == 'RET': return '.done'
-            tail = s.prog(rest, cont)
-            for op in reversed(r):
-                if op.startswith('ALIAS'):
-                    _, a, b = op.split(); s.vars[a] = s.v(b)      # `key = required` : same pointer
-                else: tail = '(.seq (%s) %s)' % (op, tail)
+    def prog(s, stmts, cont, cond=None, pending=()):
+        """translate a list of statements followed by continuation `cont` (a Lean Prog string).  `pending`: variables just
+        assigned the result of a call that returns a new reference OR NULL: the `.new` is placed on the non-NULL arm of the
+        `if (v == NULL)` that follows (on the NULL arm there is no reference), or before the first other mention of the variable"""
+        def flush(names, tail):
+            for n in reversed(names): tail = '(.seq (.new %d) %s)' % (s.vars[n], tail)
             return tail
+        if not stmts: return flush(pending, cont)
+        st, rest = stmts[0], stmts[1:]
+        if st[0] == 'block': return s.prog(st[1] + rest, cont, cond, pending)
+        if st[0] == 'simple':
+            hit = [n for n in pending if re.search(r'\b%s\b' % re.escape(n), st[1])]
+            keep = tuple(n for n in pending if n not in hit)
+            r = s.simple(st[1], cond)
+            if isinstance(r, tuple): return flush(pending, '(.ret %s)' % ('none' if r[1] is None else '(some %d)' % r[1]))
+            r = list(r)
+            m = re.match(r'^(?:PyObject\s*\*\s*)?(\w+) = ', st[1])
+            if r and r[-1].startswith('.new ') and m and s.vars.get(m.group(1)) == int(r[-1].split()[1]) and m.group(1) not in keep:
+                r.pop(); keep = keep + (m.group(1),)
+                hit = [n for n in hit if n != m.group(1)]
+            saved = dict(s.vars)
+            for op in r:
+                if op.startswith('ALIAS'):
+                    _, a, b = op.split(); s.vars[a] = s.v(b)      # `key = required` : same pointer from here on (on this path)
+            tail = s.prog(rest, cont, cond, keep)
+            s.vars = dict(saved, **{k: v for k, v in s.vars.items() if k not in saved})
+            for op in reversed(r):
+                if not op.startswith('ALIAS'): tail = '(.seq (%s) %s)' % (op, tail)
+            return flush(hit, tail)
         if st[0] == 'if':
-            # `key` aliasing in `if (...) key = X; else key = required;` is handled conservatively: both arms translated
-            a = s.prog([st[2]] + rest, cont)
-            b = s.prog(([st[3]] if st[3] else []) + rest, cont)
-            return '(.branch %s %s)' % (a, b)
+            # a condition that calls back into Python (truth value of a str subclass, a rich comparison) is a callback point
+            pre = '.callback' if re.search(r'PyObject_IsTrue|PyObject_RichCompare', st[1]) else None
+            mnull = re.match(r'^(\w+) == NULL$', st[1])
+            saved = dict(s.vars)
+            if mnull and mnull.group(1) in pending:
+                x = mnull.group(1)
+                others = tuple(n for n in pending if n != x)
+                a = s.prog([st[2]] + rest, cont, st[1], others)                                   # NULL: no reference was obtained
+                s.vars = dict(saved, **{k: v for k, v in s.vars.items() if k not in saved})
+                b = '(.seq (.new %d) %s)' % (s.vars[x], s.prog(([st[3]] if st[3] else []) + rest, cont, cond, others))
+                s.vars = dict(saved, **{k: v for k, v in s.vars.items() if k not in saved})
+                return '(.branch %s %s)' % (a, b)
+            a = s.prog([st[2]] + rest, cont, st[1])
+            s.vars = dict(saved, **{k: v for k, v in s.vars.items() if k not in saved})
+            b = s.prog(([st[3]] if st[3] else []) + rest, cont, cond)
+            s.vars = dict(saved, **{k: v for k, v in s.vars.items() if k not in saved})
+            br = '(.branch %s %s)' % (a, b)
+            return flush(pending, '(.seq (%s) %s)' % (pre, br) if pre else br)
         if st[0] == 'loop':
-            s.unknown.append('loop ' + st[1]); return s.prog(rest, cont)
+            s.unknown.append('loop ' + st[1]); return s.prog(rest, cont, cond, pending)
         raise SystemExit('?')
 
 class TrD:
@@ -132,10 +182,10 @@ class TrD:
     def simple(s, t):
         m = re.match(r'^return\b', t)
         if m: return 'RET'
+        m = re.match(r'^(\w+) = (?:_getcache\(self, .*\)|_subcache\(self->\w+, .*\))$', t)
+        if m: return ['.fetch %d' % s.v(m.group(1)), '.callback']      # the container is read off the lookup object, then its key is hashed (Python code may run)
         m = re.match(r'^(?:PyObject\s*\*\s*)?(\w+) = %s\s*\((.*)\)$' % CALLBACK_NEW, t)
         if m: return ['.callback', '.compute %d' % s.v(m.group(1))]
-        m = re.match(r'^(\w+) = (?:_getcache\(self, .*\)|_subcache\(self->\w+, .*\))$', t)
-        if m: return ['.fetch %d' % s.v(m.group(1))]
         m = re.match(r'^\w+ = PyDict_SetItem\((\w+), (\w+), (\w+)\)$', t)
         if m: return ['.store %d %d' % (s.v(m.group(1)), s.v(m.group(3)))]
         return []
@@ -485,7 +535,8 @@ def extract(path, name):
     src = strip(open(path).read())
     args, body = func_body(src, name)
     tr = Tr()
-    for a in re.findall(r'(\w+)\s*(?:,|$)', args): tr.v(a)
+    tr.args = re.findall(r'(\w+)\s*(?:,|$)', args)
+    for a in tr.args: tr.v(a)
     ast = P(body).all()
     term = tr.prog([ast], '.done')
     return term, tr
@@ -493,7 +544,7 @@ def extract(path, name):
 if __name__ == '__main__':
     path = sys.argv[1]
     import os
-    print("import ZI.Own\nimport ZI.Detach\nimport ZI.Mutator\nopen ZI.Own\nopen ZI.Own.Prog\nopen ZI.Own.Op")
+    print("import ZI.Own\nimport ZI.OwnLeak\nimport ZI.Detach\nimport ZI.Mutator\nopen ZI.Own\nopen ZI.Own.Prog\nopen ZI.Own.Op")
     for fn in ['_lookup', '_lookupAll', '_subscriptions']:
         print("def dprog_%s : ZI.Detach.Prog := %s" % (fn.strip('_'), extract_detach(path, fn)))
         print("theorem detach_%s : ZI.Detach.check dprog_%s {} = true := by decide" % (fn.strip('_'), fn.strip('_')))
@@ -501,17 +552,22 @@ if __name__ == '__main__':
     print("def loopModes : List (String × Bool) := [%s]" % ", ".join('("%s", %s)' % (a, "true" if b else "false") for a, b in loops))
     print("theorem loops_snapshot : loopModes.all (·.2) = true ∧ loopModes.length ≥ 3 := by decide")
     print(python_mutators(os.path.dirname(path)))
-    fns = sys.argv[2:] or ['_lookup', '_lookupAll', '_subscriptions', '_verify']
+    fns = sys.argv[2:] or ['_subcache', '_getcache', '_lookup', '_lookup1', '_lookupAll', '_subscriptions', '_verify']
+    print("open ZI.Own in")
+    print("def ownProgs : List String := [%s]" % ", ".join('"%s"' % f for f in fns))
     for fn in fns:
         term, tr = extract(path, fn)
         lean = fn.strip('_')
         print("/- %s: vars %s; unknown statements: %s -/" % (fn, tr.vars, tr.unknown))
         print("def prog_%s : Prog := %s" % (lean, term))
-        owned_args = [i for n, i in tr.vars.items() if n in ('self', 'required', 'provided', 'name', 'default_')]
+        # the parameters: references that belong to the caller (alive for the whole call, not ours to release)
+        owned_args = sorted(i for n, i in tr.vars.items() if n in ('self', 'required', 'provided', 'name', 'default_', 'cache', 'key') and n in tr.args)
         print("def init_%s : AState := fun v => if v ∈ %s then .owned else .unk" % (lean, owned_args))
+        print("def vars_%s : List Var := %s" % (lean, list(range(tr.n))))
         if tr.unknown:
             print("-- FAIL-CLOSED: unclassified statements in %s: %r" % (fn, tr.unknown))
             print("theorem own_%s : False := by decide" % lean)
         else:
-            print("#eval (\"%s\", check prog_%s init_%s)" % (fn, lean, lean))
-            print("theorem own_%s : check prog_%s init_%s = true := by decide" % (lean, lean, lean))
+            print("#eval (\"%s\", checkL vars_%s prog_%s ⟨init_%s, %s⟩)" % (fn, lean, lean, lean, owned_args))
+            # memory safety (ZI.Own.check_sound applies through checkL_imp_check) AND balance of the reference ledger (ZI.Own.C11_balanced)
+            print("theorem own_%s : checkL vars_%s prog_%s ⟨init_%s, %s⟩ = true ∧ vars_%s.Nodup := by decide" % (lean, lean, lean, lean, owned_args, lean))
